@@ -242,8 +242,13 @@ def run_lines(lines, jobs=JOBS):
 
 # result of the driver: [same, valid, P(model), P(impl), model_obs_if_different]
 def classify(res):
-    same, valid, pm, pi, m = res
+    same, valid, pm, pi, m = res[:5]
     return bool(same), bool(valid), pm, pi, m
+
+
+def excl_ok(res):
+    """Optional 6th element: the predicate with the known findings' clauses excluded, on the implementation."""
+    return len(res) < 6 or res[5] == 1
 
 
 def evaluate_one(plug: Plugin, live: driver.Live, case):
@@ -257,7 +262,7 @@ def evaluate_one(plug: Plugin, live: driver.Live, case):
     if r == [-1] or r == [-2]:
         return None
     same, valid, pm, pi, m = classify(r)
-    return {"case": c2, "obs": o, "same": same, "valid": valid, "pm": pm, "pi": pi, "model": m}
+    return {"case": c2, "obs": o, "same": same, "valid": valid, "pm": pm, "pi": pi, "model": m, "exok": excl_ok(r)}
 
 
 def shrink(plug: Plugin, case, pred, budget=400):
@@ -368,7 +373,7 @@ def run_check(plug: Plugin, tier: str, seed: int, level_note=""):
         if pm != 1:
             glue.append({"case": plain(c), "error": f"P(model)={pm} on a valid case: theorem/extraction glue mismatch"})
         if pi != 1:
-            bad.append((c, o, m, pi))
+            bad.append((c, o, m, pi, excl_ok(r)))
         elif not same:
             diff.append((c, o, m))
         if len(samples) < 3 and plug.nontrivial(c, o):
@@ -385,11 +390,12 @@ def run_check(plug: Plugin, tier: str, seed: int, level_note=""):
     # failing inputs on the implementation
     seen_known = set()
     reported = 0
-    for c, o, m, pi in bad:
+    for c, o, m, pi, exok in bad:
         hit = None
         for k in known:
             f = matchers.get(k.get("matcher"))
-            if f and f(c, o):
+            # a listed finding suppresses a failure only if that is all that fails on this case
+            if f and exok and f(c, o):
                 hit = k
                 break
         if hit:
